@@ -109,6 +109,19 @@ def allocOpt (v : Option Int) : HM (Option Addr) :=
   | none => pure none
   | some v => do let z ← alloc v; pure (some z)
 
+/-- `b := big.NewInt(lim); if p != nil && p.Cmp(b) < 0 { b = p }` : the operand's pointer when its
+value is below the limit, else the new object -/
+def pickBelow (p : Option Addr) (v : Option Int) (lim : Int) (fresh : Addr) : Addr :=
+  match p, v with
+  | some p, some b => if b < lim then p else fresh
+  | _, _ => fresh
+
+/-- `b := big.NewInt(lim); if p != nil && p.Cmp(b) > 0 { b = p }` -/
+def pickAbove (p : Option Addr) (v : Option Int) (lim : Int) (fresh : Addr) : Addr :=
+  match p, v with
+  | some p, some a => if a > lim then p else fresh
+  | _, _ => fresh
+
 /-- `split2Ways` : (neg, nonNeg, hasNeg, hasNonNeg); the returned ranges hold operand
 pointers, `sharedEmptyRange`'s pointers and new `-1` / `0` objects, exactly as in Go -/
 def split2Ways (x : HIR) : HM (HIR × HIR × Bool × Bool) := do
@@ -120,14 +133,8 @@ def split2Ways (x : HIR) : HM (HIR × HIR × Bool × Bool) := do
     pure (x, sharedEmpty, true, false)
   else do
     let m1 ← alloc (-1)
-    let negHi : Addr := match x.hi, X.hi with
-      | some p, some b => if b < -1 then p else m1
-      | _, _ => m1
     let z ← alloc 0
-    let nonLo : Addr := match x.lo, X.lo with
-      | some p, some a => if a > 0 then p else z
-      | _, _ => z
-    pure (⟨x.lo, some negHi⟩, ⟨some nonLo, x.hi⟩, true, true)
+    pure (⟨x.lo, some (pickBelow x.hi X.hi (-1) m1)⟩, ⟨some (pickAbove x.lo X.lo 0 z), x.hi⟩, true, true)
 
 /-- `split3Ways` : (neg, pos, hasNeg, hasZero, hasPos) -/
 def split3Ways (x : HIR) : HM (HIR × HIR × Bool × Bool × Bool) := do
@@ -139,18 +146,11 @@ def split3Ways (x : HIR) : HM (HIR × HIR × Bool × Bool × Bool) := do
     pure (x, sharedEmpty, true, false, false)
   else do
     let m1 ← alloc (-1)
-    let negHi : Addr := match x.hi, X.hi with
-      | some p, some b => if b < -1 then p else m1
-      | _, _ => m1
     let p1 ← alloc 1
-    let posLo : Addr := match x.lo, X.lo with
-      | some p, some a => if a > 1 then p else p1
-      | _, _ => p1
-    let neg : HIR := ⟨x.lo, some negHi⟩
-    let pos : HIR := ⟨some posLo, x.hi⟩
-    let N ← view neg
-    let P ← view pos
-    pure (neg, pos, !N.empty, X.containsZero, !P.empty)
+    let N ← view ⟨x.lo, some (pickBelow x.hi X.hi (-1) m1)⟩
+    let P ← view ⟨some (pickAbove x.lo X.lo 1 p1), x.hi⟩
+    pure (⟨x.lo, some (pickBelow x.hi X.hi (-1) m1)⟩, ⟨some (pickAbove x.lo X.lo 1 p1), x.hi⟩,
+      !N.empty, X.containsZero, !P.empty)
 
 /-- `Unite` -/
 def unite (x y : HIR) : HM HIR := do
@@ -298,6 +298,17 @@ def combine (f : Int → Int → Int) (p q : Option Addr) : HM HBI := do
   let z ← alloc (f (a.getD 0) (b.getD 0))
   pure (.fin z)
 
+/-- `biggerInt{i: bigIntQuo(p, q)}` : like `combine bigQuo`, but `big.Int.Quo` panics on a zero
+divisor (so: `TryQuo` returning at all, theorem `heap_refines_value_model_partial`, says that it
+never divides by zero) -/
+def combineQuo (p q : Option Addr) : HM HBI := do
+  let a ← loadB p
+  let b ← loadB q
+  if b.getD 0 = 0 then panic
+  else do
+    let z ← alloc (bigQuo (a.getD 0) (b.getD 0))
+    pure (.fin z)
+
 /-- `biggerInt{i: big.NewInt(v)}` -/
 def newBI (v : Int) : HM HBI := do
   let z ← alloc v
@@ -385,20 +396,20 @@ def tryLsh (x y : HIR) : HM (Option HIR) := do
 /-! the four blocks of `TryQuo` -/
 
 def quoNN (negX negY : HIR) (ret : HBIP) : HM HBIP := do
-  let ret ← stepHi ret (choose negX.lo.isNone (pure .posInf) (combine bigQuo negX.lo negY.hi))
-  stepLo ret (choose negY.lo.isNone (newBI 0) (combine bigQuo negX.hi negY.lo))
+  let ret ← stepHi ret (choose negX.lo.isNone (pure .posInf) (combineQuo negX.lo negY.hi))
+  stepLo ret (choose negY.lo.isNone (newBI 0) (combineQuo negX.hi negY.lo))
 
 def quoNP (negX posY : HIR) (ret : HBIP) : HM HBIP := do
-  let ret ← stepLo ret (choose negX.lo.isNone (pure .negInf) (combine bigQuo negX.lo posY.lo))
-  stepHi ret (choose posY.hi.isNone (newBI 0) (combine bigQuo negX.hi posY.hi))
+  let ret ← stepLo ret (choose negX.lo.isNone (pure .negInf) (combineQuo negX.lo posY.lo))
+  stepHi ret (choose posY.hi.isNone (newBI 0) (combineQuo negX.hi posY.hi))
 
 def quoPN (posX negY : HIR) (ret : HBIP) : HM HBIP := do
-  let ret ← stepLo ret (choose posX.hi.isNone (pure .negInf) (combine bigQuo posX.hi negY.hi))
-  stepHi ret (choose negY.lo.isNone (newBI 0) (combine bigQuo posX.lo negY.lo))
+  let ret ← stepLo ret (choose posX.hi.isNone (pure .negInf) (combineQuo posX.hi negY.hi))
+  stepHi ret (choose negY.lo.isNone (newBI 0) (combineQuo posX.lo negY.lo))
 
 def quoPP (posX posY : HIR) (ret : HBIP) : HM HBIP := do
-  let ret ← stepHi ret (choose posX.hi.isNone (pure .posInf) (combine bigQuo posX.hi posY.lo))
-  stepLo ret (choose posY.hi.isNone (newBI 0) (combine bigQuo posX.lo posY.hi))
+  let ret ← stepHi ret (choose posX.hi.isNone (pure .posInf) (combineQuo posX.hi posY.lo))
+  stepLo ret (choose posY.hi.isNone (newBI 0) (combineQuo posX.lo posY.hi))
 
 /-- `TryQuo` -/
 def tryQuo (x y : HIR) : HM (Option HIR) := do
@@ -742,19 +753,20 @@ def pureOp (op : Op) (X Y : IR) : Option (Option IR) :=
   | .unite => some (some (Interval.unite X Y))
   | .intersect => some (some (Interval.intersect X Y))
 
+/-- a new object for an operand bound (nil stays nil) -/
+def put (h : Heap) (v : Option Int) : Option Addr × Heap :=
+  match v with
+  | none => (none, h)
+  | some v => (some h.size, h.push v)
+
 /-- place the operands of a call on top of the package-level objects: every non-nil bound is
 its own object.  Returns the operand ranges and the heap. -/
 def setup (X Y : IR) : HIR × HIR × Heap :=
-  let h0 := globalsHeap
-  let put (h : Heap) (v : Option Int) : Option Addr × Heap :=
-    match v with
-    | none => (none, h)
-    | some v => (some h.size, h.push v)
-  let (xl, h1) := put h0 X.lo
-  let (xh, h2) := put h1 X.hi
-  let (yl, h3) := put h2 Y.lo
-  let (yh, h4) := put h3 Y.hi
-  (⟨xl, xh⟩, ⟨yl, yh⟩, h4)
+  let a := put globalsHeap X.lo
+  let b := put a.2 X.hi
+  let c := put b.2 Y.lo
+  let d := put c.2 Y.hi
+  (⟨a.1, b.1⟩, ⟨c.1, d.1⟩, d.2)
 
 /-- where a pointer of the result comes from -/
 inductive Prov where
